@@ -1,4 +1,7 @@
-"""Per-property configuration for ./check (see DESIGN.md §6)."""
+"""Per-property configuration for ./check: loads lib/cfg/Cxx.py (each defines CFG and TEXT)."""
+import glob, importlib.util, os
+
+HERE = os.path.dirname(os.path.abspath(__file__))
 
 COMMON_TB = [
     "Lean 4.33.0 kernel (plus leanchecker re-check in the thorough tier)",
@@ -8,7 +11,11 @@ COMMON_TB = [
 ]
 
 
-def P(bin, props_partial=(), tb=(), assumptions=(), features=None, explanation="", timeout_s=None, model_is_spec=()):
+def P(bin, partial=(), tb=(), assumptions=(), features=None, explanation="", timeout_s=None, model_is_spec=()):
+    """bin: harness binary name (src/bin/<bin>.rs); the Lean driver is drv_<bin>, root Driver.<BIN>.
+    partial: what is NOT covered by a theorem (run-only or outside the model).
+    model_is_spec: request-line first tokens for which the Lean model IS the specification by a
+    checked theorem, so that a model/impl disagreement on such a line is itself a violation."""
     return {
         "bin": bin,
         "driver": "drv_" + bin,
@@ -16,29 +23,19 @@ def P(bin, props_partial=(), tb=(), assumptions=(), features=None, explanation="
         "features": features,
         "trusted_base": COMMON_TB + list(tb),
         "assumptions": list(assumptions),
-        "partial": list(props_partial),
+        "partial": list(partial),
         "explanation": explanation,
         "model_is_spec": list(model_is_spec),
         "timeout_s": timeout_s or {"quick": 900, "thorough": 3000},
     }
 
 
-PROPS = {
-    "C09": P(
-        "c09",
-        model_is_spec=["salsa", "salsa_split", "hl", "hl2", "j96", "arc4", "arc4_split"],
-        props_partial=[
-            "MD5 (md-5 crate) and the SIMD intrinsics are compared by the run only (accelerated == scalar == std on every buffer length 0..=200 and every host CPU-feature subset); no Lean model of the intrinsics",
-            "ARC4: round-trip, piecewise and key-length theorems are proved of the model; agreement of the model with RC4 is by the published known answers and the differential run",
-        ],
-        tb=[
-            "Spec/Salsa20.lean transcribes DJB's Salsa20 specification; checked against the spec's quarterround vectors and the ECRYPT 128-bit vector by kernel evaluation (tests of the transcription)",
-            "Spec/Lookup3.lean transcribes lookup3.c hashlittle/hashlittle2; checked against lookup3.c's driver5 known answers in the run",
-        ],
-        assumptions=[
-            "Rust `[u8;16]` key type: theorems assume key.length = 16",
-            "hashlittle* theorems assume input length < 2^32 (beyond it the Rust saturates the length where lookup3.c truncates)",
-            "memory safety of the unsafe SIMD code is outside the model",
-        ],
-    ),
-}
+PROPS, TEXT = {}, {}
+for path in sorted(glob.glob(os.path.join(HERE, "cfg", "C*.py"))):
+    pid = os.path.basename(path)[:-3]
+    spec = importlib.util.spec_from_file_location("cfg_" + pid, path)
+    mod = importlib.util.module_from_spec(spec)
+    mod.P = P
+    spec.loader.exec_module(mod)
+    PROPS[pid] = mod.CFG
+    TEXT[pid] = mod.TEXT
